@@ -1771,7 +1771,13 @@ class RepeatingEngine(Engine):
                         isNewOutput = self.job.producersHaveOutputSinceDate(self.lastLaunched)
                     else:
                         time_waiting = (datetime.datetime.now() - self.lastLaunched).total_seconds()
-                        if time_waiting > 20.0:
+                        if self._stateDict['numberTaskLaunches'] == 0:
+                            # VV: The producers finished before this engine ever executed: whatever output they
+                            #     produced predates self.lastLaunched (which run() primes with the current time) so it
+                            #     would never be reported as "new". Execute now to observe the final output instead
+                            #     of burning repeatRetries and terminating without ever having consumed anything.
+                            isNewOutput = True
+                        elif time_waiting > 20.0:
                             # VV: FIXME We should consult the graph to figure out whether the producers have
                             #     finished rstage-outing their output files.
                             self.log.log(19, "I have waited for too long for my Finished producers to produce output")
